@@ -15,7 +15,7 @@ from gen.programs import INT, BOOL, STR, FLOAT, VOID, tup, fn, iter_of, arr, cel
 from props import c11, c13
 from vlib import esc_field, harness_run, sexp_parse, sexp_str
 
-THM_MODULES = ["SslModel.Thm.C01", "SslModel.Thm.C01Eval", "SslModel.Thm.C01Fn"]
+THM_MODULES = ["SslModel.Thm.C01", "SslModel.Thm.C01Eval", "SslModel.Thm.C01Fn", "SslModel.Thm.C01StA", "SslModel.Thm.C01StB", "SslModel.Thm.C01StC", "SslModel.Thm.C01StD"]
 TRANSLATE_PARTS = ["scalar", "errors"]
 ANY = ("any",)
 
@@ -204,6 +204,23 @@ def edge_templates():
         tail.append([("fndecl", "hb", [("v", BOOL)], BOOL, [("return", V("v"))]), ("set", "r", ("if", ("call", V("hb"), [c]), ("block", [I(1)]), None)), V("r")])
         tail.append([("fndecl", "hb", [("v", BOOL)], BOOL, [("return", V("v"))]),
                      ("set", "r", ("if", ("call", V("hb"), [c]), ("block", [I(1)]), ("block", [("s", "x")]))), V("r")])
+    # `+` / `+=` on arrays whose element types differ, one a subtype of the other: the result's stored element type must
+    # cover both operands' elements (in either order, constant and computed), also after a run-time type test
+    S_ = lambda x: ("s", x)
+    F_ = lambda x: ("f", x)
+    pairs = [(("array", [I(1)]), ("array", [I(2), S_("a")])), (("array", [("array", [])]), ("array", [("array", [I(1)])])),
+             (("array", [I(1)]), ("array", [I(3), F_(2.5)])), (("array", [("tuple", [I(1), I(2)])]), ("array", [("tuple", [I(1), S_("b")]), ("tuple", [I(0), I(0)])]))]
+    opq = lambda e: ("pre", "deref", ("mut", None, e))
+    for a, b in pairs:
+        for l, r in ((a, b), (b, a)):
+            tail.append([("set", "x", ("bin", "add", l, r)), V("x")])
+            tail.append([("set", "l", opq(l)), ("set", "r", opq(r)), ("set", "x", ("bin", "add", V("l"), V("r"))), V("x")])
+            tail.append([("set", "l", opq(l)), ("set", "r", opq(r)), ("set", "x", ("bin", "add", V("l"), V("r"))),
+                         ("set", "y", ("match", V("x"), [("ty", "ints", arr(INT), ("block", [("bin", "mul", ("at", V("ints"), I(-1)), I(2))])),
+                                                         ("other", ("block", [I(0)]))])), ("tuple", [V("x"), V("y")])])
+            tail.append([("set", "l", opq(l)), ("set", "c", ("mut", None, r)), ("assign", "add", V("c"), V("l")), ("pre", "deref", V("c"))])
+            tail.append([("set", "l", opq(l)), ("set", "r", opq(r)), ("fndecl", "cat", [("p", arr(ANY)), ("q", arr(ANY))], arr(ANY), [("return", ("bin", "add", V("p"), V("q")))]),
+                         ("call", V("cat"), [V("l"), V("r")])])
     mon = out[MONITOR_ONLY:]
     return out[:MONITOR_ONLY] + tail, mon
 
@@ -227,7 +244,7 @@ def fragment_types(res, rnd, n, broken_model, functions=False, stores=False):
             [g.typed_program(rnd.choice([1, 2, 3, 3]), rnd.choice([0.0, 0.05, 0.15])) for _ in range(n - n // 4)]
     bodies = [FR.normal(b) for b in bodies]      # control-flow constructs stand in statement positions only
     pre = FR.prelude_s() if stores else FR.prelude()
-    impl = harness_run(["prog\t\t" + esc_field(A.program_src(pre + b)) for b in bodies])
+    impl = harness_run(["prog\tnoexec\t" + esc_field(A.program_src(pre + b)) for b in bodies])
     if broken_model:
         res.streams[label + "-types"] = dict(programs=n, compared=0)
         return
@@ -291,9 +308,9 @@ def fragment_types(res, rnd, n, broken_model, functions=False, stores=False):
 
 def run(res, tier, seed, broken_model):
     rnd = random.Random(seed)
-    fragment_types(res, random.Random(seed + 3), 1500 if tier == "quick" else 40000, broken_model)
-    fragment_types(res, random.Random(seed + 4), 1000 if tier == "quick" else 30000, broken_model, functions=True)
-    fragment_types(res, random.Random(seed + 5), 1000 if tier == "quick" else 30000, broken_model, stores=True)
+    fragment_types(res, random.Random(seed + 3), 3000 if tier == "quick" else 40000, broken_model)
+    fragment_types(res, random.Random(seed + 4), 2500 if tier == "quick" else 30000, broken_model, functions=True)
+    fragment_types(res, random.Random(seed + 5), 2500 if tier == "quick" else 30000, broken_model, stores=True)
     spec_t, mon_t = edge_templates()
     erecs = P.run_programs(spec_t, broken_model=broken_model)
     mrecs = P.run_programs(mon_t, broken_model=True)
